@@ -350,8 +350,13 @@ Accept(S, d, p) ==
         \* receive callback of the configuration: one-shot offset for even parts
         S4 == IF cfg.devs[d].offmod # 0 /\ ~S3.part[p].batch /\ S3.part[p].seq % 2 = 0
               THEN [S3 EXCEPT !.dev[d].off = @ + cfg.devs[d].offmod] ELSE S3
-        S5 == [S4 EXCEPT !.occ = Append(@, <<"recv", d, p, S4.part[p].quality, ValueOf(S4, p),
-                                             CycleInEffect(S4, d, p), S4.dev[d].off>>)] IN
+        S5a == [S4 EXCEPT !.occ = Append(@, <<"recv", d, p, S4.part[p].quality, ValueOf(S4, p),
+                                              CycleInEffect(S4, d, p), S4.dev[d].off>>)]
+        \* a sink's receive callback of the configuration may add value to the received parts afterwards
+        S5 == IF Kind(d) = "sink" /\ cfg.devs[d].vadd # 0
+              THEN LET ls == LeavesOf(S5a, p) IN
+                   [S5a EXCEPT !.part = [i \in DOMAIN @ |-> IF i \in Range(ls) THEN [@[i] EXCEPT !.value = @ + cfg.devs[d].vadd] ELSE @[i]]]
+              ELSE S5a IN
     IF S5.dev[d].out = 0 THEN TryMoveToOutput(S5, d) ELSE S5
 
 (* Shared-machine groups: a group path P (a device of the line) pushes itself on the part's path   *)
